@@ -112,9 +112,17 @@ C01_Caps == { <<Cap("x", x), Ref("x")>> : x \in {La, Cls("any"), Grp(<<Loop(1, -
          \cup { <<Or(Grp(<<Cap("x", La), Lb>>), Grp(<<La, Lc>>))>>,
                 <<Loop(1, -1, FALSE, Cap("x", Grp(<<In(<<La, Lb>>)>>))), Ref("x")>> }
 
+(* a loop whose body has a choice point, followed by something that forces  *)
+(* the search back into an earlier iteration's alternative                  *)
+C01_LoopBinCtx == {<<Loop(q[1], q[2], f, Or(x, y)), z>> : q \in QuantCore \cup {<<2, 3>>}, f \in BOOLEAN, x \in Core4, y \in Core4, z \in {La, Lb, Lab}}
+                    \cup {<<Loop(q[1], q[2], f, Grp(<<x, Loop(0, 1, FALSE, y)>>)), z>> : q \in QuantCore, f \in BOOLEAN, x \in {La, Cls("any")}, y \in {La, Lb}, z \in {La, Lb}}
+(* consuming constructs evaluated exactly at (or just before) the end       *)
+C01_AtEnd == {<<x, n>> : x \in {La, Cls("any"), Lab}, n \in InLeaves \cup {NotLit(<<ba>>), NotCls("digit"), NotCls("whitespace"), Cls("any"), CiLit(<<bA>>)}}
+               \cup {<<x, n, Anc("fileend")>> : x \in {La, Cls("any")}, n \in InLeaves}
+
 C01_Bodies(tier) ==
   C01_Single \cup C01_Loops \cup C01_Binary \cup C01_LoopBin \cup C01_BinLoop
-    \cup C01_Nested \cup C01_Context \cup C01_Subs \cup C01_Caps
+    \cup C01_Nested \cup C01_Context \cup C01_Subs \cup C01_Caps \cup C01_LoopBinCtx \cup C01_AtEnd
 
 (* global patterns with and without predicate                               *)
 PredLenAtLeast(n) == <<[k |-> "ret", e |-> [k |-> "bin", op |-> ">=", l |-> [k |-> "var", name |-> "matchLength"], r |-> [k |-> "num", v |-> n]]]>>
@@ -228,6 +236,8 @@ C05_Trans ==
   << [name |-> "tdup", stmts |-> <<SRet(PBin("+", PVar("match"), PVar("match")))>>],
      [name |-> "tcap", stmts |-> <<SRet(PBin("+", PVar("x"), PStr(<<33>>)))>>],
      [name |-> "tnum", stmts |-> <<SRet(PVar("matchNumber"))>>],
+     [name |-> "tinc", stmts |-> <<SIf(PBin("<", PVar("matchNumber"), PNum(2)), <<SRet(PBin("+", PVar("matchNumber"), PNum(1)))>>, <<>>),
+                                   SRet(PBin("*", PVar("matchNumber"), PVar("matchLength")))>>],
      [name |-> "tlen", stmts |-> <<SRet(PBin("*", PVar("matchLength"), PNum(2)))>>],
      [name |-> "tif",  stmts |-> <<SIf(PBin("==", PVar("match"), PStr(<<ba>>)), <<SRet(PStr(<<bA>>))>>, <<>>), SRet(PBin("+", PStr(<<60>>), PVar("y")))>>],
      [name |-> "tset", stmts |-> <<SSet("v", PUn("tail", PVar("match"))), SRet(PBin("+", PVar("v"), PUn("head", PVar("match"))))>>] >>
@@ -318,5 +328,9 @@ C10_Bodies ==
      \cup {<<l, Lb>> : l \in D1} \cup {<<La, l>> : l \in D1}
      \cup {<<Sub("s", <<Loop(0, 1, FALSE, La)>>), Loop(q[1], q[2], f, Ref("s"))>> : q \in QuantNull, f \in BOOLEAN}
      \cup {<<Sub("s", <<Loop(0, -1, FALSE, Anc("lineend"))>>), Loop(q[1], q[2], f, Grp(<<Ref("s"), Ref("s")>>))>> : q \in QuantNull, f \in BOOLEAN}
-     \cup {<<Loop(q[1], q[2], f, Grp(<<Sub("s", <<Loop(0, -1, FALSE, Ref("t0"))>>)>>))>> : q \in {}, f \in BOOLEAN}
+     \* guarded recursion: the subroutine consumes before it recurses
+     \cup {<<Sub("s", <<x, Loop(q[1], q[2], f, Ref("s"))>>)>> : x \in {NotIn(<<Lb>>), Cls("any"), NotLit(<<bb>>), La, NotCls("whitespace"), In(<<La, Lit(<<sp>>)>>)},
+                                                                q \in {<<0, 1>>, <<0, -1>>}, f \in BOOLEAN}
+     \cup {<<Sub("s", <<x, Or(Grp(<<Ref("s")>>), Grp(<<>>))>>), Lb>> : x \in {NotIn(<<Lb>>), Cls("any"), La}}
+     \cup {<<Sub("s", <<x, Loop(0, 1, FALSE, Grp(<<Loop(0, -1, FALSE, Anc("lineend")), Ref("s")>>))>>)>> : x \in {NotIn(<<Lb>>), La}}
 =============================================================================
